@@ -35,7 +35,8 @@ ValVerdict(r) ==
   ELSE IF e # o THEN <<"abs", "validation-class">>
   ELSE <<"ok", "ok">>
 Check(r) ==
-  IF r.kind = "val" THEN (LET v == ValVerdict(r) IN IF v[1] = "ok" THEN TRUE ELSE PrintT(<<"REJECT", r.tid, v[1], v[2], ArgVerdict(r.argkind, r.d)>>))
+  IF r.kind = "ploop" THEN (IF ParserLoopOK(r.parsers, r.tries, r.found) THEN TRUE ELSE PrintT(<<"REJECT", r.tid, "abs", "parser-loop", r.tries>>))
+  ELSE IF r.kind = "val" THEN (LET v == ValVerdict(r) IN IF v[1] = "ok" THEN TRUE ELSE PrintT(<<"REJECT", r.tid, v[1], v[2], ArgVerdict(r.argkind, r.d)>>))
   ELSE IF r.kind = "abs" THEN (IF AbsVerdict(r) = "drift" THEN PrintT(<<"REJECT", r.tid, "abs", "absparser", AbsModel(r)>>) ELSE TRUE)
   ELSE IF r.kind = "nsp" THEN
        (IF ~r.skip /\ ~(NspModel(r).out = r.out /\ (r.out = NSFail \/ NspModel(r).period = r.period))
